@@ -37,7 +37,6 @@
 package pgdump
 
 import (
-	"os"
 	"path/filepath"
 	"sort"
 	"strconv"
@@ -118,7 +117,7 @@ func DumpDataDir(dataDir string, opts *Options) (*DumpResult, error) {
 func dumpDataDirRows(dataDir string, opts *Options, rows rowSource) (*DumpResult, error) {
 	opts = withDefaults(opts)
 
-	dbData, err := os.ReadFile(filepath.Join(dataDir, "global", "1262"))
+	dbData, err := readRegularFile(filepath.Join(dataDir, "global", "1262"))
 	if err != nil {
 		return nil, err
 	}
@@ -133,15 +132,15 @@ func dumpDataDirRows(dataDir string, opts *Options, rows rowSource) (*DumpResult
 		}
 
 		basePath := filepath.Join(dataDir, "base", strconv.FormatUint(uint64(db.OID), 10))
-		classData, _ := os.ReadFile(filepath.Join(basePath, "1259"))
-		attrData, _ := os.ReadFile(filepath.Join(basePath, "1249"))
+		classData, _ := readRegularFile(filepath.Join(basePath, "1259"))
+		attrData, _ := readRegularFile(filepath.Join(basePath, "1249"))
 
 		if len(classData) == 0 {
 			continue
 		}
 
 		reader := func(fn uint32) ([]byte, error) {
-			return os.ReadFile(filepath.Join(basePath, strconv.FormatUint(uint64(fn), 10)))
+			return readRegularFile(filepath.Join(basePath, strconv.FormatUint(uint64(fn), 10)))
 		}
 
 		if dump, _ := dumpDatabaseFromFilesRows(classData, attrData, reader, opts, rows); dump != nil {
